@@ -200,6 +200,19 @@ def find_guards(events, pred, swallow=None, allow_extra=False):
     return out
 
 
+def accepted_only_when_not(x, pred) -> bool:
+    """event x lies in a branch that is only entered when the condition pred describes is false: `if a == b: <x>` protects x against a != b just as
+    `if a != b: raise` before x does"""
+    for f in x.ctx:
+        if f[0] != "if":
+            continue
+        neg = rel(f[1], not f[2])
+        for d in disjuncts(neg):
+            if d[0] == "rel" and pred(d[1], d[2], d[3]):
+                return True
+    return False
+
+
 def only_cond_frames(g, allowed_conds, ex) -> bool:
     """all `if` frames enclosing g are tests of one of the allowed condition terms (true polarity)"""
     for x in g.d.get("extra", []):
@@ -395,10 +408,44 @@ def reader_rules(m: Bf3Model, chk, pid, want=None):
                     return True
             return False
 
+        def running_position(y):
+            """y is a loop-carried variable that equals the reader position at the head of every iteration: it starts as tell() taken with no read before the
+            loop, and every iteration adds exactly the size of its only read (an exact read returns that many bytes or raises)"""
+            y = unsnap(y)
+            if y.op != "loopvar":
+                return False
+            lr_ = ex.loops.get(y.args[0])
+            if lr_ is None or not any(f[0] == "loop" and f[1] == y.args[0] for f in pay.ev.ctx):
+                return False
+            init, nxt = lr_.init.get(y.args[1]), lr_.next.get(y.args[1])
+            mi = meth_call(unsnap(init)) if init is not None else None
+            if not (mi and mi[1] == "tell" and unsnap(mi[0]) is top.term) or nxt is None:
+                return False
+            t_ev = [e for e in ev if e.kind == "mcall" and e.d["name"] == "tell" and unsnap(e.d["result"]) is unsnap(init)]
+            moves = [e for e in ev if e.kind == "mcall" and e.d["name"] in ("read", "seek", "read_int") and unsnap(e.d["recv"]) is top.term and t_ev and e.uid > t_ev[0].uid]
+            moves += [e for e in ev if e.kind == "call" and e.d["callee"].name in ("read", "seek", "read_int") and e.d.get("recv") is not None and unsnap(e.d["recv"]) is top.term and t_ev and e.uid > t_ev[0].uid
+                      and e.uid != pay.ev.uid]
+            in_loop = [e for e in moves if any(f[0] == "loop" and f[1] == y.args[0] for f in e.ctx)]
+            if [e for e in moves if e not in in_loop and e.uid < pay.ev.uid] or [e for e in in_loop if e.uid != pay.ev.uid and unsnap(e.d.get("result")) is not unsnap(pay.ev.d.get("result"))]:
+                return False
+            n_ = unsnap(nxt)
+            if not (n_.op == "bin" and n_.args[0] == "Add"):
+                return False
+            a_, b_ = unsnap(n_.args[1]), unsnap(n_.args[2])
+            return (a_ is y and b_ is unsnap(pay.size)) or (b_ is y and a_ is unsnap(pay.size))
+
+        def pred8b(op, a, b):
+            if op != "NotEq":
+                return False
+            return any(_is_int_of(adr, x) and running_position(y) for x, y in ((a, b), (b, a)))
+
         gs = find_guards(ev, pred8)
         gs = [g for g in gs if dominates(g, pay.ev, sw)]
+        gsb = [g for g in find_guards(ev, pred8b) if dominates(g, pay.ev, sw)]
         # the tell() must be taken after the previous payload read and before this one: same iteration, no read between
-        ok = False
+        ok = bool(gsb)
+        if gsb and not gs:
+            gs = gsb
         for g in gs:
             between = [e for e in ev if g.uid < e.uid < pay.ev.uid and e.kind == "mcall" and e.d["name"] in ("read", "seek") and unsnap(e.d["recv"]) is top.term]
             tells = [e for e in ev if e.kind == "mcall" and e.d["name"] == "tell" and mentions(g.d["cond"], e.d["result"])]
@@ -475,6 +522,16 @@ def reader_rules(m: Bf3Model, chk, pid, want=None):
         okc = okc and sets["description"].op == "param" and sets["description"].args[0] == "description" and sets["blob"].op == "param" and sets["blob"].args[0] == "blob"
         al = sets.get("actual_len")
         ok_al = al is not None and ((al.op == "param" and al.args[0] == "actual_len") or (al.op == "or" and al.args[0][0].op == "param" and al.args[0][0].args[0] == "actual_len" and is_len_of(al.args[0][1], mk("param", "blob"))))
+        if al is not None and not ok_al and unsnap(al).op == "phi":
+            # `actual_len if actual_len else len(blob)` is `actual_len or len(blob)`
+            c_, a_, b_ = unsnap(al).args
+            rc = rel(c_, True)
+            p_al = mk("param", "actual_len")
+            if rc[0] == "rel" and rc[1] == "Truthy" and unsnap(rc[2]) is p_al and unsnap(a_) is p_al and is_len_of(b_, mk("param", "blob")):
+                ok_al = True
+            rn = rel(c_, False)
+            if rn[0] == "rel" and rn[1] == "Truthy" and unsnap(rn[2]) is p_al and unsnap(b_) is p_al and is_len_of(a_, mk("param", "blob")):
+                ok_al = True
         chk.require(okc and ok_al, P("fields->object"), BF3 + ".Bf3Component.__init__", "self.description/blob/actual_len = parameters", "%s:%d" % (ri.fi.file, ri.fi.lineno),
                     "constructor stores its parameters unchanged (actual_len falls back to len(blob) only when falsy)", "constructor does not store description/blob/actual_len parameters unchanged")
 
@@ -910,6 +967,7 @@ def envelope_reader_rules(m: Bf3Model, chk, pid):
     loops = [lr for lr in ex.loops.values() if lr.kind in ("while", "for") and not getattr(lr, "comp_kind", None)]
     lr = loops[0] if len(loops) == 1 else None
     lv = None
+    walrus_line = None
     if lr is None:
         ok, why = False, "comment block is not parsed by a single loop"
     elif lr.kind == "for":
@@ -925,7 +983,19 @@ def envelope_reader_rules(m: Bf3Model, chk, pid):
             for x, y in ((r[2], r[3]), (r[3], r[2])):
                 if x.op == "loopvar" and is_const(y) and cval(y) == T["separator"]:
                     lv = x
-        if lv is None:
+                elif walrus_line is None and is_const(y) and cval(y) == T["separator"]:
+                    # `while (line := f.readline()) != SEP:` -- the line is read in the loop head, once per iteration
+                    mc = meth_call(unsnap(x))
+                    hd = [e for e in res.events if e.kind == "mcall" and e.d["name"] == "readline" and unsnap(e.d["result"]) is unsnap(x)
+                          and e.ctx and e.ctx[-1][0] == "loop" and e.ctx[-1][1] == lr.id]
+                    if mc and mc[1] == "readline" and len(hd) == 1:
+                        walrus_line = unsnap(x)
+        if walrus_line is not None and lv is None:
+            lv = walrus_line
+            others = [e for e in res.events if e.kind == "mcall" and e.d["name"] in ("readline", "read", "readlines") and any(f[0] == "loop" and f[1] == lr.id for f in e.ctx)]
+            if len(others) != 1:
+                ok, why = False, "comment loop reads more than one line per iteration"
+        elif lv is None:
             ok, why = False, "comment loop does not stop exactly at the empty separator line (condition %s)" % (show(lr.cond, 4) if lr.cond is not None else None)
         else:
             nm = lv.args[1]
@@ -1093,15 +1163,24 @@ def tag_compare_rules(m: Bf3Model, chk, pid):
                 if other is dec[0][0]:
                     continue
                 known = [(f[1], bool(f[2])) for f in other.ctx if f[0] == "if"] + [(c, bool(p_)) for c, p_ in (getattr(other, "facts", ()) or ())]
-                excluded = False
-                for c_, p_ in known:
-                    r_ = rel(c_, p_)
-                    for a_ in ([r_] if r_[0] == "rel" else r_[1] if r_[0] == "and" else []):
-                        if a_[0] == "rel" and a_[1] == "NotEq" and a_[3] is not None:
-                            for x, y in ((a_[2], a_[3]), (a_[3], a_[2])):
-                                k_ = _desc_lookup(x, ddict)
-                                if k_ is not None and is_const(k_) and cval(k_) == enc_tag and is_const(unsnap(y)) and cval(unsnap(y)) == want:
-                                    excluded = True
+                def rules_out(a_):
+                    """the relation a_ implies that the entry's ENC tag is not the SESSIONKEY value: it differs from it, or the tag is absent"""
+                    if a_[0] == "and":
+                        return any(rules_out(b_) for b_ in a_[1])
+                    if a_[0] == "or":
+                        return bool(a_[1]) and all(rules_out(b_) for b_ in a_[1])
+                    if a_[0] != "rel" or a_[3] is None:
+                        return False
+                    if a_[1] == "NotEq":
+                        for x, y in ((a_[2], a_[3]), (a_[3], a_[2])):
+                            k_ = _desc_lookup(x, ddict)
+                            if k_ is not None and is_const(k_) and cval(k_) == enc_tag and is_const(unsnap(y)) and cval(unsnap(y)) == want:
+                                return True
+                    if a_[1] == "NotIn" and is_const(unsnap(a_[2])) and cval(unsnap(a_[2])) == enc_tag and strip_elem(a_[3]) is ddict:
+                        return True
+                    return False
+
+                excluded = any(rules_out(rel(c_, p_)) for c_, p_ in known)
                 if not excluded:
                     ok, why = False, "a component is also built from the stored bytes on a path where the ENC tag may say SESSIONKEY (%s): encrypted content would be returned undecrypted" % other.where
     chk.require(ok, P("decrypt-on-read"), BF3 + ".Bf3Component.from_encrypted_raw_data", "create_AES128(session_key).decrypt(payload), flag kept", dec[0][0].where if dec else "",
